@@ -160,6 +160,8 @@ class UnitConversions:
             self.protein_units,
         ] = self.get_units_from_list_to_element()
 
+        self.units = [self.kcals_units, self.fat_units, self.protein_units]
+
     def get_units_from_element_to_list(self):
         """
         gets the units so that they reflect that of a list of months
@@ -191,6 +193,8 @@ class UnitConversions:
             self.fat_units,
             self.protein_units,
         ] = self.get_units_from_element_to_list()
+
+        self.units = [self.kcals_units, self.fat_units, self.protein_units]
 
     def get_units(self):
         """
